@@ -28,7 +28,7 @@ def run(chk):
     repo = Repo(chk.repo)
     # R10.11: integer arguments are values like any other; numba keeps them integers until they meet a float (an integer-literal power is taken first)
     from .common import int_power_lint
-    int_power_lint(chk, repo, 'R10.11', ['TidalPy/tides/dissipation.py', 'TidalPy/tides/modes/mode_manipulation.py', 'TidalPy/tides/love1d.py'])
+    int_power_lint(chk, repo, 'R10.11', ['TidalPy/tides/dissipation.py', 'TidalPy/tides/modes/mode_manipulation.py', 'TidalPy/tides/love1d.py', 'TidalPy/toolbox/quick_tides.py'])
     mm = repo.by_path('TidalPy/tides/modes/mode_manipulation.py')
     f_terms = mm.defs.get('calculate_terms'); f_coll = mm.defs.get('collapse_modes'); f_find = mm.defs.get('find_mode_manipulators')
     for nm, f in (('calculate_terms', f_terms), ('collapse_modes', f_coll), ('find_mode_manipulators', f_find)):
